@@ -254,7 +254,7 @@ def model_value(model, c):
     v = model.eval(c, model_completion=True)
     if z3.is_bool(v):
         return z3.is_true(v)
-    if z3.is_int_value(v):
+    if z3.is_int_value(v) or z3.is_bv_value(v):
         return v.as_long()
     if z3.is_rational_value(v):
         return fractions.Fraction(v.numerator_as_long(), v.denominator_as_long())
